@@ -82,6 +82,8 @@ def run_one(workdir, idx, rnd, ct):
              {"id": 1, "tag": "x", "extra": [1]}, [[{"id": 1}], [{"tag": 2}]]],
             # more than five unrelated classes at one position (RewriteLargeUnion / common base)
             [fx.A(), fx.B(), fx.C(), fx.D(), fx.E(), fx.F(), fx.X(), fx.Y(), fx.XY1(), fx.YX1(), 1, "s", None],
+            # a set with more than five element types next to small sets (large-union rewriting inside a container)
+            [{None, 1, b"x", 2.5, (1, 2), "a"}, {1}, {1, 2}, {"s"}, {None, 1, b"x", 2.5, (1, 2), "a", True}, set()],
             # equal values of different classes
             [1, True, 1.0, {1}, {True}, {1.0}, (1, 2), (True, 2), {(1, 2)}, {(True, 2)}, {1: "a"}, {True: "a"}],
         ]
